@@ -86,6 +86,16 @@ UNITS.append(dict(
 ))
 
 UNITS.append(dict(
+    id="oh.country",
+    package="",
+    owner="opening-hours/src/localization/country/mod.rs",
+    harness="kani/oh/verif_country.rs",
+    modname="verif_country",
+    modpath="localization::country::verif_country",
+    deps=["syntax.extended_time"],
+))
+
+UNITS.append(dict(
     id="oh.time_filter",
     package="",
     owner="opening-hours/src/filter/time_filter.rs",
@@ -215,6 +225,20 @@ PROPS = {
             "'No reported interval starts before the requested start or ends after min(requested end, 10000-01-01T00:00); next_change never returns an instant at or beyond 10000-01-01' - these live in closures applied to the interval iterator's output: not decided",
         ],
         trusted_base=_TB_COMMON + ["contract model of rule_sequence_schedule_at (contributes nothing or a whole-day open schedule with a comment)"],
+        assumptions=[],
+    ),
+    "C10": dict(
+        level="other",
+        technique="Kani full-domain contract harnesses on the generated Country::iso_code / from_str / ALL",
+        level_text="Partial: one of the three sentences. 'The set of countries, their ISO codes and the code parser are mutually consistent (parsing a country's code gives that country, anything else is rejected)': for every country of Country::ALL (symbolic index) the code is two upper-case ASCII letters, from_str(iso_code(c)) == Ok(c), ALL lists each country once and codes are pairwise distinct; for every string of 0..=3 ASCII bytes, from_str accepts it iff it is the code of a listed country and then returns that country (complete over these domains; longer and non-ASCII strings are not covered). Nothing is decided about the embedded calendars ('contains the date iff the source data file lists it') nor about what PH/SH selectors see with a country's calendar attached.",
+        level_note="The enum, iso_code, from_str and ALL are generated code (scripts/generate-holidays.py); the harness runs the real generated functions. The embedded, deflate-compressed calendar data and its build-time encoding are outside any function contract (calendar framing itself is C15).",
+        explanation="PARTIAL: country-code consistency only; embedded calendar contents undecided.",
+        undecided_clauses=[
+            "'For each supported country and every date, the embedded public (resp. school) holiday calendar contains the date iff the source data file lists it for that country' - data integrity across build script, deflate and env!-embedded bytes: not decided",
+            "'PH/SH selectors see exactly these dates when a country's calendar is attached' - follows from the holiday filter contract (C01) only given the calendars: not decided here",
+            "strings longer than 3 bytes or containing non-ASCII bytes passed to from_str: not covered",
+        ],
+        trusted_base=_TB_COMMON,
         assumptions=[],
     ),
     "C11": dict(
